@@ -87,6 +87,7 @@ type task struct {
 	op       int
 	opYields int
 	yields   uint64
+	curAtomic, justAtomic bool
 	holds    int // pooled buffers currently held (gets - puts)
 	sincePut int // yields since the last PoolPut of this task (large = none)
 	pre      map[int][]Preempt
@@ -144,6 +145,11 @@ func initCoverage() {
 }
 
 var atomicSite []bool
+
+// JustAtomic reports whether the statement the running task executed right
+// before the current yield performs a sync/atomic operation. Monitors accept a
+// change of data held in an atomic value only then (or under a lock).
+func JustAtomic() bool { return on && cur != nil && cur.justAtomic }
 
 // InterestTrace, if set, is called when the running task is about to execute a
 // statement that performs a sync/atomic operation (with the op-local yield
@@ -231,6 +237,12 @@ func Yield(site uint32) {
 	rep.Clock++
 	TotalYields++
 	rep.Trace = (rep.Trace ^ (uint64(t.id)<<32 | uint64(site))) * 0x100000001b3
+	// the statement this task has just executed (wholly, or - at a scheduling point
+	// inside a statement, site 0 - in part) performs a sync/atomic operation?
+	t.justAtomic = t.curAtomic
+	if site != 0 && int(site) < len(atomicSite) {
+		t.curAtomic = atomicSite[site]
+	}
 	if int(site) < len(SiteHits) {
 		SiteHits[site]++
 		if atomicSite[site] {
